@@ -662,7 +662,9 @@ def r33_instantiate_generics(src, item, ed, opts):
     if not sp:
         return
     if "generics" in item:
-        ed.replace(item["generics"][0], item["generics"][1], "", "R33")
+        # `generics_to` keeps what the instance still needs (lifetimes); a type parameter that stays in the text is a
+        # type alias of the prelude (`pub type T = i64;`)
+        ed.replace(item["generics"][0], item["generics"][1], sp.get("generics_to", ""), "R33")
     if "where" in item:
         ed.replace(item["where"][0], item["where"][1], "", "R33")
     for pname, newty in sp.get("params", {}).items():
